@@ -15,8 +15,8 @@ import exprcases
 
 def plan_for(ctx):
     if ctx.quick:
-        return [dict(fam="simp", tbl="A", n=330), dict(fam="simp", tbl="B", n=200),
-                dict(fam="rand", tbl="A", n=110, d=3), dict(fam="rand", tbl="B", n=60, d=3),
+        return [dict(fam="simp", tbl="A", n=290), dict(fam="simp", tbl="B", n=180),
+                dict(fam="rand", tbl="A", n=90, d=3), dict(fam="rand", tbl="B", n=50, d=3),
                 dict(fam="inlist", tbl="A", n=25), dict(fam="inlist", tbl="B", n=25),
                 dict(fam="case", tbl="A", n=30), dict(fam="case", tbl="B", n=15),
                 dict(fam="guard", tbl="A", n=15), dict(fam="like", tbl="A", n=40)]
@@ -42,6 +42,20 @@ def finding_key(case, header, r):
     if r.get("type_changed") or r.get("after_plan_error") or not r.get("engine_diff_rows"):
         return None
     diffs = r["engine_diff_rows"]                      # [table_row, before, after]
+    # (0) simplify_predicates compares equality conjuncts syntactically: `0 = c AND c = 0` is "two different equalities" -> false
+    if r["variant"] == "simplify-predicates" and "Boolean(false)" in (r.get("after") or ""):
+        def conjuncts(x):
+            if x.get("op") == "bin" and x.get("f") == "and":
+                return conjuncts(x["l"]) + conjuncts(x["r"])
+            return [x]
+        eqs = {}
+        for q in conjuncts(case["e"]):
+            if q.get("op") == "bin" and q.get("f") == "=":
+                for a, b, side in ((q["l"], q["r"], "col-left"), (q["r"], q["l"], "col-right")):
+                    if a.get("op") == "col" and b.get("op") == "lit":
+                        eqs.setdefault((a["i"], json.dumps(b["v"], sort_keys=True)), set()).add(side)
+        if any(len(v) == 2 for v in eqs.values()) and all(d[1] == "1" and d[2] == "0" for d in diffs):
+            return "simplify-predicates-mirrored-equalities"
     rows = exprcases.table_rows(header, case["tbl"])
     # (1) guarantee MaybeNull{[v,v]}: the column is replaced by the literal v although it may be NULL
     single = [g["col"] for g in r.get("guar", []) if g["nk"] == "maybe" and g["lo"] == g["hi"]]
@@ -71,6 +85,20 @@ def finding_key(case, header, r):
                 break
     if pair and all((d[1] == "NULL") != (d[2] == "NULL") and d[2] not in ("ERROR", "TYPE") for d in diffs):
         return "inlist-set-algebra-forgets-null"
+    # (3) unwrap_cast_in_comparison removes a NARROWING TRY_CAST (TRY_CAST(wide AS narrow) op literal -> wide op literal'):
+    #     where the value does not fit the narrow type the original is NULL, the rewritten comparison TRUE/FALSE
+    narrowing = {("i", "i32"), ("i", "i16"), ("i", "i8"), ("i32", "i16"), ("i32", "i8"), ("i16", "i8")}
+    sch = header["tables"][case["tbl"]]["schema"]
+
+    def src_kind(x):
+        if x.get("op") == "col":
+            return sch[x["i"] - 1]
+        if x.get("op") == "cast":
+            return x["to"]
+        return x.get("t")
+    trycast = any(n.get("op") == "cast" and n.get("try") and (src_kind(n["e"]), n["to"]) in narrowing for n in _walk(case["e"]))
+    if trycast and all(d[1] == "NULL" and d[2] in ("0", "1") for d in diffs):
+        return "unwrap-narrowing-try-cast-in-comparison"
     return None
 
 
@@ -117,7 +145,13 @@ def run(ctx):
             msgs.append("the engine evaluates the simplified expression differently from the original on a row where the original has a value")
         if r.get("type_changed"):
             msgs.append("simplification changed the expression's data type: " + r["type_changed"])
-        if r.get("after_plan_error"):
+        if r.get("after_plan_error") and r["variant"].startswith("dataframe-") and "Optimizer rule 'simplify_expressions' failed" in r["after_plan_error"]:
+            # the optimizer's constant evaluation raised (e.g. a failing CAST of a constant in a branch no row selects): no
+            # simplified expression exists — listed like the direct simplifier errors, not raised
+            stats["simplify_errors_in_optimizer"] += 1
+            if len(simp_errors) < 8:
+                simp_errors.append({"expr": exprcases.show(c["e"], header), "variant": r["variant"], "error": r["after_plan_error"][:200]})
+        elif r.get("after_plan_error"):
             msgs.append("the simplified expression cannot be planned although the original can: " + r["after_plan_error"][:300])
         if r.get("simplify_error"):
             # no simplified expression was produced: the property (equal values) is not contradicted; listed in the evidence
